@@ -34,8 +34,8 @@ MANIFEST = {
 }
 ASSUMPTIONS = [
     "the theorems quantify over call sequences whose descriptions have type offer/answer (or a type string that RTCSessionDescription "
-    "rejects); pranswer and rollback are outside the property's alphabet: aiortc accepts them in every state, including closed "
-    "(theorem ext_types_not_rejected_when_closed documents it)",
+    "rejects); pranswer and rollback are outside the property's alphabet: aiortc accepts them in every state except closed "
+    "(theorem ext_types_rejected_when_closed: since the C19 close() fix a closed connection rejects them too)",
     "what createOffer puts into an offer (media sections) is an input of the model; createAnswer is modelled as echoing the "
     "(kind, mid) list of the remote offer, which holds when the remote offers are consistent with the negotiation history "
     "(m-sections keep their mid), as JSEP requires of the remote side",
